@@ -30,9 +30,11 @@ Sections == [kind : {"section"}, spec : {"", "public", "protected", "private"}, 
 IncludeSets == [kind : {"includes"}, system : BOOLEAN,
                 names : { <<NmString>>, <<NmPump, NmVector>>, <<>> }]
 Members == [kind : {"member"}, type : {Int, NsT, CRef, Ptr, Tpl}, name : {"m_x"}]
-\* ck: how the contents are given - a plain TextBlock, a TextBlock with a header, or a Comment object
+\* ck: how the contents are given - a plain TextBlock, a TextBlock with a header, a Comment object, or "later": the block
+\* is created without contents and filled in place afterwards (while another contents-less block of the same kind, filled
+\* with other text, exists: blocks do not share their buffers), or "set": assigned through the contents setter
 Blocks == [kind : {"block"}, ids : { <<>>, <<"A">>, <<"A", "B">>, <<"A", "B", "C">> }, kw : {"struct", "class"},
-           lines : {0, 1, 2}, ck : {"plain", "header", "comment"}]
+           lines : {0, 1, 2}, ck : {"plain", "header", "comment", "later", "set"}]
 
 VARIABLE d
 Init == d \in (CASE Mode = "function" -> Functions [] Mode = "ctor" -> Ctors [] Mode = "dtor" -> Dtors
